@@ -226,16 +226,18 @@ def flushBufferedValues (s : RunEnc) : RunEnc :=
              else s.flushBitPackedRun false
     { s with rep := 0 }
 
+/-- the tail of `put`: buffer the value, flush a full group -/
+def push (s : RunEnc) (value : Nat) : RunEnc :=
+  let s := { s with buffered := s.buffered ++ [value] }
+  if s.buffered.length = BIT_PACK_GROUP_SIZE then s.flushBufferedValues else s
+
 def put (s : RunEnc) (value : Nat) : RunEnc :=
-  let go (s : RunEnc) : RunEnc :=
-    let s := { s with buffered := s.buffered ++ [value] }
-    if s.buffered.length = BIT_PACK_GROUP_SIZE then s.flushBufferedValues else s
   if s.cur = value then
     let s := { s with rep := s.rep + 1 }
-    if s.rep > BIT_PACK_GROUP_SIZE then s else go s
+    if s.rep > BIT_PACK_GROUP_SIZE then s else s.push value
   else
     let s := if s.rep ≥ BIT_PACK_GROUP_SIZE then s.flushRleRun else s
-    go { s with rep := 1, cur := value }
+    ({ s with rep := 1, cur := value }).push value
 
 def flush (s : RunEnc) : RunEnc :=
   if s.opn.length > 0 ∨ s.rep > 0 ∨ s.buffered.length > 0 then
